@@ -36,6 +36,8 @@ type Contract struct {
 	Where     string
 	Props     []string
 	CallSites []CallAssert
+	Exits     []Clause         // `exit <expr>`: must hold at every return, with locals in scope
+	BackEdges map[int][]Clause // `loop N backedge <expr>`: must hold whenever the loop body jumps back
 	Defines   string   // ufunc that denotes this (pure, deterministic) function's result
 	Witness   []Clause // extra entry-state terms reported with counterexamples
 }
@@ -215,7 +217,7 @@ func (cs *ContractSet) loadFile(path, repo string) {
 		switch word {
 		case "func", "iface", "field":
 			flush()
-			cur = &Contract{Kind: word, Header: body, LoopInv: map[int][]Clause{}, LoopDec: map[int]Clause{}, Where: at}
+			cur = &Contract{Kind: word, Header: body, LoopInv: map[int][]Clause{}, LoopDec: map[int]Clause{}, BackEdges: map[int][]Clause{}, Where: at}
 			switch word {
 			case "func":
 				m := hdrRe.FindStringSubmatch(body)
@@ -302,6 +304,18 @@ func (cs *ContractSet) loadFile(path, repo string) {
 			if cur != nil {
 				cur.Defines = rest
 			}
+		case "exit":
+			flush()
+			if cur != nil {
+				e, err := parseSpec(rest)
+				if err != nil {
+					cs.errf("%s: %v", at, err)
+					continue
+				}
+				for _, cj := range splitConj(e) {
+					cur.Exits = append(cur.Exits, Clause{cj, cj.String(), at})
+				}
+			}
 		case "callsite":
 			flush()
 			callee, ex := splitWord(rest)
@@ -362,6 +376,15 @@ func (cs *ContractSet) loadFile(path, repo string) {
 				pend = &pending{kind: "inv", n: n, text: r3, at: at}
 			case "decreases":
 				pend = &pending{kind: "dec", n: n, text: r3, at: at}
+			case "backedge":
+				if cur != nil {
+					e, err := parseSpec(r3)
+					if err != nil {
+						cs.errf("%s: %v", at, err)
+						continue
+					}
+					cur.BackEdges[n] = append(cur.BackEdges[n], Clause{e, r3, at})
+				}
 			default:
 				cs.errf("%s: loop %d: invariant|decreases expected", at, n)
 			}
